@@ -47,6 +47,13 @@ GARBAGE = ["this is not fortran at all", "end", "contains", "end module nothing"
            "x = '[bold]' &\n\n& '[/bold]'\n&"]
 
 
+# lines that are cheap to write and expensive for a backtracking matcher: long runs of one character
+PATHOLOGICAL = ["'" * 78, '"' * 77, "x = " + "''" * 30 + " ! c", 'title = ' + '""' * 34,
+                "module m\n character(4) :: rule = " + "'" * 61 + "\nend module m",
+                "Notes\n" + '"' * 70 + "\nsome text, not Fortran", "(" * 80, "call s(" + "(" * 40 + ")" * 39,
+                "&" * 80, "!" * 80 + "'" * 60, "a" + ", a" * 200, "x = " + "1 + " * 150 + "1"]
+
+
 class Timeout(BaseException):
     """raised by the watchdog; not an Exception, so that FORD's own `except Exception` handlers (the per-file
     handler of Project.__init__ among them) cannot swallow it and turn a hang into a skipped file"""
@@ -89,7 +96,7 @@ def bad_variants(rng, valid):
         out.append(("drop-line", "\n".join(lines[:i] + lines[i + 1:]) + "\n", None))
         out.append(("dup-end", "\n".join(lines[:i] + ["end"] + lines[i:]) + "\n", None))
         out.append(("contains", "\n".join(lines[:i] + ["contains"] + lines[i:]) + "\n", None))
-    out.append(("garbage", rng.choice(GARBAGE) + "\n", None))
+    out.append(("garbage", rng.choice(GARBAGE + PATHOLOGICAL) + "\n", None))
     out += cut_in_continuation(rng, lines)
     return out
 
@@ -208,6 +215,7 @@ def run(chk):
         # B. isolation: the other files' trees and identifiers with and without the bad file, every position
         nproj = 40 if quick else 400
         special = [g + "\n" for g in GARBAGE[-3:]]     # diagnostics that quote a line with markup-like brackets
+        special += [g + "\n" for g in (PATHOLOGICAL if not quick else rng.sample(PATHOLOGICAL, 5) + PATHOLOGICAL[:2])]
         for pi in range(nproj):
             nvalid = rng.choice([2, 3])
             valids = gen_valid_files(rng, nvalid)
